@@ -832,6 +832,7 @@ def run(ctx):
     tbl = "gen_units" if gen_ok else "si_units"
     ctx.prove("Props/C06.v")
     ctx.prove("Props/C06_units.v")
+    ctx.prove("Props/C06_metric.v")
     stats = new_stats()
     rng = ctx.rng
     ninputs, nruns = ctx.n(200, 3000), ctx.n(3, 8)
